@@ -10,6 +10,7 @@ import os
 import shutil
 import tempfile
 import warnings
+import sys
 
 import numpy as np
 
@@ -740,6 +741,39 @@ def exhaustive_grid(ctx):
                 yield cc
 
 
+PROBE = r"""
+import io, sys, warnings
+src, hexdata = sys.argv[1], sys.stdin.read().strip()
+sys.path.insert(0, src)
+from pydrobert.speech.util import read_signal
+# no filter is installed here: what is recorded is what reaches a caller who left Python's warning configuration alone
+with warnings.catch_warnings(record=True) as w:
+    x = read_signal(io.BytesIO(bytes.fromhex(hexdata)), force_as="sph")
+print(len([i for i in w if "samples read" in str(i.message)]), len(x))
+"""
+
+
+def warning_reaches_caller(ctx):
+    """'a warning is issued': in a fresh interpreter whose warning filters are whatever Python and importing the library
+    left them at, reading a truncated file makes the warning reach the caller (a library that silences the category
+    process-wide issues nothing anyone can see)"""
+    import subprocess
+
+    import random as _random
+    case = base_case(_random.Random(12), coding="pcm", chans=2, count=50, hsize=1024, dtype="none", canonical=True)
+    case.update(kind="trunc", cut=101, via="bytesio", probe="fresh_interpreter")
+    b, _items, _data = build(dict(case))
+    ctx.case(case, kind="warning_probe")
+    p = subprocess.run([sys.executable, "-c", PROBE, common.repo_src()], input=bytes(b).hex(), capture_output=True, text=True, timeout=120)
+    out = p.stdout.strip().split()
+    if p.returncode != 0 or len(out) != 2:
+        ctx.violation(case, "a warning and the whole frames present", (p.stderr or p.stdout)[-300:], "truncated data: a warning is issued (fresh interpreter, default filters)",
+                      tags=dict(clause="warning_reaches_caller", how="probe_failed"))
+    elif int(out[0]) < 1:
+        ctx.violation(case, "at least one 'samples read' warning recorded", "%s warnings, %s samples returned" % (out[0], out[1]),
+                      "truncated data: a warning is issued (fresh interpreter, default filters)", tags=dict(clause="warning_reaches_caller"))
+
+
 def run(ctx, driver):
     global R
     r = ctx.rng
@@ -747,6 +781,7 @@ def run(ctx, driver):
     R = consts["BUF_SIZE"] if consts["BUF_SIZE"] > 0 else R
     check_tables(ctx, driver, consts)
     check_encoder(ctx, driver)
+    warning_reaches_caller(ctx)
     tmp = Tmp()
     lines, pend = [], []
     budget_bytes = 0
